@@ -34,7 +34,7 @@ type sessionStream struct{}
 
 func (sessionStream) Name() string { return "session" }
 func (sessionStream) Rule() string {
-	return "route tables of 0..6 registrations of every kind (criteria over an alphabet with case variants, default and unbind routes, re-registrations) x a script of 0..3 responses per handler (every constructor, random option subsets and orders, setter sequences, controls, attributes) x 1..8 requests of every kind with distinct message ids (half from the routing alphabet, half fully random incl. controls), ended by close / Unbind (+ trailing requests or garbage in the same write) / an unsupported operation / a bind with version 2 / garbage / a half frame; plain and TLS listeners; lock-step (byte-exact, in order) and pipelined (multiset) clients; oracle (independent of the model): handler invocations (which handler, which message id, in which order) equal those of a reference router over the generator's own request values, every frame strictly parses to the view the script describes with the request's message id, refusals carry the request's id / unwillingToPerform / the operation's response tag, nothing is served after the ending frame; non-trivial = at least one handler invocation"
+	return "route tables of 0..6 registrations of every kind (criteria over an alphabet with case variants, default and unbind routes, re-registrations) x a script of 0..3 responses per handler (every constructor, random option subsets and orders, setter sequences, controls, attributes) x 1..8 requests of every kind with distinct message ids (half from the routing alphabet, half fully random incl. controls), ended by close / Unbind (+ trailing requests or garbage in the same write) / an unsupported operation / a bind with version 2 / garbage / a half frame; plain and TLS listeners, with and without (long) read / write timeouts configured; lock-step (byte-exact, in order) and pipelined (multiset) clients; oracle (independent of the model): handler invocations (which handler, which message id, in which order) equal those of a reference router over the generator's own request values, every frame strictly parses to the view the script describes with the request's message id, refusals carry the request's id / unwillingToPerform / the operation's response tag, nothing is served after the ending frame; non-trivial = at least one handler invocation"
 }
 
 type sessReq struct {
@@ -157,6 +157,9 @@ func (sessionStream) Generate(rng *rand.Rand, n int, thorough bool) []Case {
 		}
 		if rng.Intn(4) == 0 {
 			mode += "+late" // the routes are registered when the client is already connected
+		}
+		if rng.Intn(4) == 0 {
+			mode += "+to" // read and write timeouts configured, far too long to fire: nothing may change
 		}
 		// ending
 		var tail []byte
@@ -512,7 +515,11 @@ func (sessionStream) Impl(c Case) string {
 			fmt.Fprintf(os.Stderr, "%s +%v\n", what, time.Since(t0))
 		}
 	}
-	sut, err := startServer(mux, tlsc, nil)
+	var sopts []gldap.Option
+	if strings.Contains(mode, "+to") {
+		sopts = append(sopts, gldap.WithReadTimeout(40*time.Second), gldap.WithWriteTimeout(40*time.Second))
+	}
+	sut, err := startServer(mux, tlsc, nil, sopts...)
 	dbg("started")
 	if err != nil {
 		return "err start: " + err.Error()
